@@ -372,7 +372,7 @@ TIMING_ENTER = {
     '    self._parent = v0\n'
     "thread_local.thread_local_set('__timing_context__', self)\n"
     'self.start()\n'
-    'return self': 'keepsStaleParent',       # finding F60: a re-used TimeIt restores the parent of its first use
+    'return self': 'keepsStaleParent',       # finding F80: a re-used TimeIt restores the parent of its first use
     "v0 = thread_local.thread_local_get('__timing_context__', None)\n"
     'self._parent = v0\n'
     'if v0 is not None:\n'
